@@ -190,8 +190,8 @@ func BranchMask(s *query.Branch, r *Repo, d *Doc) uint64 {
 		switch {
 		case s.Pattern == "":
 			sel = true // an empty branch pattern is "no branch filter" (query.Simplify folds it to TRUE)
-		case s.Pattern == "HEAD":
-			sel = i == 0
+		case s.Pattern == "HEAD" && !s.Exact:
+			sel = i == 0 // "HEAD" is an alias for the first indexed branch
 		case s.Exact:
 			sel = b == s.Pattern
 		default:
